@@ -157,48 +157,119 @@ def _scan_sound(f):
     return None
 
 
+def _read_wrappers(fns, mod):
+    """functions of the WAL module that wrap one read_exact and report its failure in their result:
+    name -> the bool payload that means `read failed` (False for `Ok(false) on EOF`), or None when failure is only Err"""
+    out = {}
+    for n, h in fns.items():
+        if not n.startswith(mod + '::') or '{closure' in n:
+            continue
+        rt = h.locals[0] if h.locals else ''
+        if 'Result<' not in rt:
+            continue
+        reads = A.calls_to(h, READ_EXACT)
+        if len(reads) != 1:
+            continue
+        uses = A.Uses(h)
+        o = A.call_outcome(h, reads[0], uses)
+        if not o.err and not o.returned:
+            continue
+        fail_vals = set()
+        if 'Result<bool' in rt and o.err:
+            R = A.reachable(h, [t for (_, t) in o.err])
+            for bb in R:
+                for st in h.bbs[bb]['s']:
+                    rv = st[1]
+                    if rv[0] == 'agg' and rv[1].endswith('Result::Ok') and rv[2] and rv[2][0][0] == 'k':
+                        fail_vals.add(rv[2][0][1])
+        out[n] = (False if fail_vals == {'false'} else True if fail_vals == {'true'} else None)
+    return out
+
+
+def _payload_bool_edges(f, uses, call, want):
+    """edges taken when the bool payload of call's Ok(..) value equals `want`"""
+    out = set()
+    work = [call.dest[0]] if not call.dest[1] else []
+    seen = set()
+    while work:
+        l = work.pop()
+        if l in seen:
+            continue
+        seen.add(l)
+        for u in uses.uses.get(l, []):
+            if u[0] == 'call' and u[3].generic.endswith('Try::branch') and not u[3].dest[1]:
+                work.append(u[3].dest[0])
+            elif u[0] == 'st':
+                st, pl = u[3], u[4]
+                if st[1][0] == 'use' and not st[0][1]:
+                    if pl[1] and f.locals[st[0][0]] == 'bool':
+                        o = A.outcome_edges(f, st[0][0], 'bool', uses)
+                        out |= (o.ok if want else o.err)
+                    elif not pl[1]:
+                        work.append(st[0][0])
+    return out
+
+
 def r02e(ctx, rep, which):
-    rep.rule('R02e', 'in each WAL replay loop, once a read_exact or a record decode fails no further read_exact is reachable '
+    rep.rule('R02e', 'in each WAL replay loop, once a record read (read_exact, directly or through a helper that reports a short read as '
+                     'Ok(false) / Err) or a record decode fails, no further record read is reachable '
                      '(replay stops at the first incomplete/undecodable record, it never skips one)')
     for w in which:
         spec = WALS[w]
         cr = ctx.crate(spec['crate'])
+        fns = getattr(cr, 'raw_fns', cr.fns)
         f = _find(cr, spec['replay'])
         if f is None:
             rep.violation('R02e', 'anchor-missing', spec['replay'], '-', 'anchor-missing: replay function of %s not found' % w)
             continue
+        f = fns.get(f.name, f)
+        mod = re.sub(r'::<[^>]*>', '', spec['struct']).rsplit('::', 1)[0]
+        wrappers = _read_wrappers(fns, mod)
+
+        def read_sites(g):
+            return A.calls_to(g, READ_EXACT) + [c for c in A.calls(g) if c.resolved in wrappers]
         # the record loop may live in a helper of the same module (replay → replay_file): follow the calls
-        if len(A.calls_to(f, READ_EXACT)) < 2:
-            cg = ctx.callgraph([spec['crate']])
-            mod = re.sub(r'::<[^>]*>', '', spec['struct']).rsplit('::', 1)[0]
-            cands = [cg.fns[n] for n in sorted(cg.reach([f.name])) if n in cg.fns and n.startswith(mod + '::') and len(A.calls_to(cg.fns[n], READ_EXACT)) >= 2
-                     and not re.search(r'valid_prefix', n)]
+        if len(read_sites(f)) < 2:
+            seen, work, cands = set(), [f.name], []
+            while work:
+                n = work.pop()
+                if n in seen or n not in fns:
+                    continue
+                seen.add(n)
+                for c in A.calls(fns[n]):
+                    if c.resolved.startswith(mod + '::') and c.resolved not in wrappers:
+                        work.append(c.resolved)
+                if n != f.name and len(read_sites(fns[n])) >= 2 and not re.search(r'valid_prefix', n):
+                    cands.append(fns[n])
             if cands:
                 f = cands[0]
         rep.analysed(f)
         uses = A.Uses(f)
-        reads = A.calls_to(f, READ_EXACT)
+        reads = read_sites(f)
         decs = A.calls_to(f, ('re', r'bitcode::deserialize|bincode::deserialize|::from_bytes$|deserialize_entry|::decode'))
-        if not rep.floor('R02e', '%s replay read_exact calls' % w, len(reads), 2):
+        if not rep.floor('R02e', '%s replay record reads' % w, len(reads), 2):
             continue
         rep.floor('R02e', '%s replay decode calls' % w, len(decs), 1)
         read_blocks = {c.bb for c in reads}
-        for kind, cs in (('read_exact', reads), ('decode', decs)):
+        for kind, cs in (('read', reads), ('decode', decs)):
             for k, c in enumerate(cs):
                 o = A.call_outcome(f, c, uses)
-                if not o.err:
+                fail = set(o.err)
+                if c.resolved in wrappers and wrappers[c.resolved] is not None:
+                    fail |= _payload_bool_edges(f, uses, c, wrappers[c.resolved])
+                if not fail:
                     if o.returned:
                         rep.holds('R02e', f, '%s %s#%d' % (w, kind, k), 'error propagated')
                     else:
-                        rep.unresolved_instance('R02e', f, '%s %s#%d' % (w, kind, k), 'error edge of the call not recognised')
+                        rep.unresolved_instance('R02e', f, '%s %s#%d' % (w, kind, k), 'failure edge of the call not recognised')
                     continue
-                R = A.reachable(f, [t for (_, t) in o.err])
+                R = A.reachable(f, [t for (_, t) in fail])
                 again = sorted(R & read_blocks)
                 if again:
-                    rep.violation('R02e', f, '%s-%s' % (w, kind), f.loc(c.line),
-                                  'after a failed %s the replay loop can reach another read_exact (bb%s): a bad record is skipped, not a stop' % (kind, again))
+                    rep.violation('R02e', f, '%s-%s' % (w, 'read_exact' if kind == 'read' else kind), f.loc(c.line),
+                                  'after a failed %s the replay loop can reach another record read (bb%s): a bad record is skipped, not a stop' % (kind, again))
                 else:
-                    rep.holds('R02e', f, '%s %s#%d' % (w, kind, k), 'error edge leaves the loop')
+                    rep.holds('R02e', f, '%s %s#%d' % (w, kind, k), 'failure edge leaves the loop')
 
 
 def r02f(ctx, rep, which):
@@ -311,8 +382,9 @@ def r02h(ctx, rep, which):
         base = re.sub(r'::<[^>]*>', '', spec['struct'])
         n = 0
         nf = 0
+        mod = base.rsplit('::', 1)[0]
         for name, f in sorted(cr.fns.items()):
-            if not re.sub(r'::<[^>]*>', '', name).startswith(base + '::'):
+            if not re.sub(r'::<[^>]*>', '', name).startswith(mod + '::'):
                 continue
             nf += 1
             rps = [c for c in A.calls_to(f, ('re', r'::rotated_path$')) if c.bb in A.reachable(f, [c.target])]
@@ -341,3 +413,60 @@ def r02h(ctx, rep, which):
         if n == 0:
             rep.holds('R02h', base, '%s rotated segments' % w, 'never read (%d methods scanned)' % nf)
         rep.floor('R02h', '%s methods scanned' % w, nf, 5)
+
+
+CRC = re.compile(r'crc32fast::hash$|crc32fast::Hasher::finalize$|::compute_checksum$|::checksum$|crc32\w*$')
+
+
+def _crc_sites(fns, f):
+    """checksum computations in f with the must-pass atoms `<stored> != 0` that guard them"""
+    out = []
+    defs = None
+    for c in A.calls(f):
+        if not CRC.search(c.resolved):
+            continue
+        defs = defs or A.Defs(f)
+        nz = False
+        for at in lib.must_pass_atoms(fns, f, defs, c.bb):
+            if at.kind == 'cmp' and at.op == 'Ne':
+                sa, sb = lib.val_sig(at.fn, at.defs, at.a), lib.val_sig(at.fn, at.defs, at.b)
+                sls = at.side_slices()
+                if (sa == ('k', 0) or sb == ('k', 0)) and any(any(re.search(r'from_(le|be)_bytes$', x) for x in sl.calls) for sl in sls):
+                    nz = True
+        out.append((c, nz))
+    return out
+
+
+def r02i(ctx, rep, which):
+    rep.rule('R02i', 'every reader treats an unchecksummed record the way replay does: if replay verifies a record\'s checksum only when '
+                     'the stored checksum is non-zero (0 = written with checksums off), then every other checksum computation reachable '
+                     'from open() — the tail-repair scan in particular — is behind the same `stored != 0` test. A scan that verifies '
+                     'unconditionally declares the last complete record torn and cuts an acknowledged write off at every reopen')
+    for w in which:
+        spec = WALS[w]
+        cr = ctx.crate(spec['crate'])
+        cg = ctx.callgraph([spec['crate']])
+        rp, op = _find(cr, spec['replay']), _find(cr, spec['open'])
+        if rp is None or op is None:
+            rep.violation('R02i', 'anchor-missing', w, '-', 'anchor-missing: open/replay of %s not found' % w)
+            continue
+        base = re.sub(r'::<[^>]*>', '', spec['struct'])
+        mod = base.rsplit('::', 1)[0]
+        rfs = [cg.fns[n] for n in sorted(cg.reach([rp.name])) if n in cg.fns and n.startswith(mod + '::')]
+        replay_sites = [x for g in rfs for x in _crc_sites(cr.fns, g)]
+        convention = bool(replay_sites) and all(nz for (_, nz) in replay_sites)
+        ofs = [cg.fns[n] for n in sorted(cg.reach([op.name])) if n in cg.fns and n.startswith(mod + '::') and cg.fns[n] not in rfs]
+        n = 0
+        for g in ofs:
+            for (c, nz) in _crc_sites(cr.fns, g):
+                n += 1
+                rep.analysed(g)
+                if convention and not nz:
+                    rep.violation('R02i', g, 'unconditional-checksum', g.loc(c.line),
+                                  'this scan verifies a record checksum although the stored checksum may be 0 (records written with '
+                                  'checksums disabled), which replay skips: the last complete record of such a log never verifies, is '
+                                  'treated as a torn tail and truncated on open')
+                else:
+                    rep.holds('R02i', g, 'checksum use', 'same convention as replay')
+        if n == 0:
+            rep.holds('R02i', op, '%s open path' % w, 'no checksum computation outside replay (replay convention: stored != 0 = %s)' % convention)
